@@ -13,6 +13,12 @@
 // panics on them: the mirror's panic sites are compared too).
 // A line that does not parse gives `PARSE error|panic`, a panic of the desugarer
 // `SUGAR panic`.
+// Mode `chain` (property C01): as `desugared`, but RES is the OUTCOME CLASS of the
+// rest of the real per-definition pipeline, `into_cfg` followed by `into_ssa` (which
+// includes type / value / degree propagation and the caching of variable uses):
+//   RES (chain ok) | (chain err-lift KIND) | (chain panic-lift) | (chain err-ssa) | (chain panic-ssa)
+// compared with what the extracted chain Model.PipelineMirrors.analyse_body answers
+// for the same DEF (coq/extract/chain.ml).
 use parser::verif::{parse_source, remove_syntactic_sugar};
 use program_structure::ast::Definition;
 use program_structure::cfg::errors::CFGError;
@@ -90,7 +96,22 @@ fn result_line(r: Option<(Result<Cfg, CFGError>, ReportCollection)>) -> String {
     }
 }
 
-fn run(line: &str, raw: bool) -> String {
+fn chain_line(r: Option<(Result<Cfg, CFGError>, ReportCollection)>) -> String {
+    match r {
+        None => "(chain panic-lift)".to_string(),
+        Some((Err(_), _)) => {
+            let e = result_line(r);
+            format!("(chain err-lift {})", e.trim_start_matches("(err ").trim_end_matches(')'))
+        }
+        Some((Ok(cfg), _)) => match guarded(move || cfg.into_ssa().is_ok()) {
+            None => "(chain panic-ssa)".to_string(),
+            Some(false) => "(chain err-ssa)".to_string(),
+            Some(true) => "(chain ok)".to_string(),
+        },
+    }
+}
+
+fn run(line: &str, raw: bool, chain: bool) -> String {
     let src = unescape(line);
     let mut file_library = FileLibrary::new();
     let file_id = file_library.add_file("memory.circom".to_string(), src.clone(), true);
@@ -144,7 +165,7 @@ fn run(line: &str, raw: bool) -> String {
             (c, rs)
         });
         out.push("RES".to_string());
-        out.push(result_line(r));
+        out.push(if chain { chain_line(r) } else { result_line(r) });
     }
     for n in fnames {
         let f = &functions[n];
@@ -156,7 +177,7 @@ fn run(line: &str, raw: bool) -> String {
             (c, rs)
         });
         out.push("RES".to_string());
-        out.push(result_line(r));
+        out.push(if chain { chain_line(r) } else { result_line(r) });
     }
     if out.is_empty() {
         return "EMPTY".to_string();
@@ -167,5 +188,6 @@ fn run(line: &str, raw: bool) -> String {
 fn main() {
     silence_panics();
     let raw = std::env::args().nth(1).map(|a| a == "raw").unwrap_or(false);
-    each_line(|l| run(l, raw));
+    let chain = std::env::args().nth(1).map(|a| a == "chain").unwrap_or(false);
+    each_line(|l| run(l, raw, chain));
 }
